@@ -265,7 +265,7 @@ theorem lookupByValue_erase (env : Env) : lookupByValue (eraseEnv env) = lookupB
 theorem umEnum_erase (env : Env) (L : Leaves) : umEnum (eraseEnv env) L = umEnum env L := by
   funext c v
   unfold umEnum
-  simp only [load_erase, lookupByValue_erase, isText_erase]
+  simp only [load_erase, lookupByValue_erase, isText_erase, isStrMixin_erase]
 
 theorem construct_erase (ci : ClassInfo) (c : Nat) (kw : List (Str × Val)) :
     construct (eraseCI ci) c kw = construct ci c kw := by
